@@ -143,8 +143,8 @@ Publish(e) ==
   IF claim THEN Reject("event-without-commit", "", log[wp])
   ELSE IF e.pos # wp THEN Reject("publish-position", wp, e.pos)
   ELSE IF e.cap < cfg.init THEN Reject("ring-capacity-below-initial", cfg, e.cap)
-  ELSE IF e.e.bm # wp THEN Reject("bookmark-of-published-event", wp, e.e.bm)
-  ELSE /\ log' = Append(log, AbsEv(e.e)) /\ cap' = e.cap /\ claim' = TRUE
+  (* the bookmark of an event IS its position in the log, wherever the implementation keeps or computes it *)
+  ELSE /\ log' = Append(log, [AbsEv(e.e) EXCEPT !.bm = wp]) /\ cap' = e.cap /\ claim' = TRUE
        /\ UNCHANGED <<store, cfg, ws, nprec>> /\ Keep
 
 (* ---------------------------------------------------------------- watches *)
@@ -196,17 +196,19 @@ WStart(e) ==
                  /\ UNCHANGED <<store, log, cap, cfg, claim, nprec>> /\ Keep
 
 (* selector rewrite of the raw events of a kind watch, from the match bits the code computed *)
-RECURSIVE Rewritten(_)
-Rewritten(raw) ==
-  IF raw = <<>> THEN <<>>
-  ELSE LET r == Head(raw)
-           one == CASE r.t \in {"created", "destroyed"} -> IF r.mn THEN <<AbsEv(r)>> ELSE <<>>
+RECURSIVE Rewritten(_, _)
+Rewritten(evs, raw) ==
+  IF evs = <<>> THEN <<>>
+  ELSE LET r == Head(evs)
+           b == Head(raw)
+           one == CASE r.t \in {"created", "destroyed"} -> IF b.mn THEN <<r>> ELSE <<>>
                     [] r.t = "updated" ->
-                         IF r.mo /\ ~r.mn THEN <<Ev("destroyed", r.id, r.ver, 0, r.bm)>>
-                         ELSE IF ~r.mo /\ r.mn THEN <<Ev("created", r.id, r.ver, 0, r.bm)>>
-                         ELSE IF r.mo /\ r.mn THEN <<AbsEv(r)>> ELSE <<>>
-                    [] OTHER -> <<AbsEv(r)>>
-       IN one \o Rewritten(Tail(raw))
+                         IF b.mo /\ ~b.mn THEN <<Ev("destroyed", r.id, r.ver, 0, r.bm)>>
+                         ELSE IF ~b.mo /\ b.mn THEN <<Ev("created", r.id, r.ver, 0, r.bm)>>
+                         ELSE IF b.mo /\ b.mn THEN <<r>> ELSE <<>>
+                    [] OTHER -> <<r>>
+       IN one \o Rewritten(Tail(evs), Tail(raw))
+NoBm(sq) == [k \in 1..Len(sq) |-> [sq[k] EXCEPT !.bm = 0]]
 
 WRead(e) ==
   IF e.w \notin DOMAIN ws THEN Reject("read-by-unknown-watch", "", e.w)
@@ -230,8 +232,8 @@ WRead(e) ==
   ELSE LET must == SubSeq(log, r.pos + 1, wp)
            got  == [k \in 1..Len(e.raw) |-> AbsEv(e.raw[k])]
        IN IF e.pos # r.pos THEN Reject("read-position", r.pos, e.pos)
-          ELSE IF got # must THEN Reject("ring-contents", must, got)
-          ELSE /\ ws' = [ws EXCEPT ![e.w].pos = wp, ![e.w].q = @ \o Rewritten(e.raw)]
+          ELSE IF NoBm(got) # NoBm(must) THEN Reject("ring-contents", must, got)
+          ELSE /\ ws' = [ws EXCEPT ![e.w].pos = wp, ![e.w].q = @ \o Rewritten(must, e.raw)]
                /\ UNCHANGED <<store, log, cap, cfg, claim, nprec>> /\ Keep
 
 WSend(e) ==
